@@ -74,7 +74,7 @@ if __name__ == "__main__":
             print("patch does not apply:", df)
             continue
         # only mutants touching a file the refactoring changed, or whose rules look at it: keep all mutants of changed files
-        changed = {fn for fn in srcs if srcs[fn] != open(f"/repo/lbfgsb/{fn}", encoding="utf-8").read()}
+        changed = {fn for fn in srcs if not os.path.exists(f"/repo/lbfgsb/{fn}") or srcs[fn] != open(f"/repo/lbfgsb/{fn}", encoding="utf-8").read()}
         for m in MUTANTS:
             files = {m["file"]} | {a[0] for a in m.get("also", [])}
             if files & changed:
